@@ -23,7 +23,8 @@
 (*                is not positive moves nothing but is counted             *)
 (*   LegacyReturn                                                          *)
 (*                                                                         *)
-(* Times live on an integer lattice (sixteenths).  Field data are TERMS:   *)
+(* Times live on an integer lattice (sixteenths; zero and negative times    *)
+(* included, never -1, which is the "absent" mark of stop criteria).  Field data are TERMS:   *)
 (* the sequence of steps applied since the origin, each tagged with the    *)
 (* hidden multistep state it consumed.  Two data are equal iff they were   *)
 (* produced by the same steps from the same hidden state, which is exactly *)
@@ -54,7 +55,8 @@ AllDeviations == {"SaveOnePerIter",       \* D3: `if` instead of `while` around 
                   "HiddenSurvivesSolve",  \* D2b: solve() does not forget the multistep history
                   "StaleItTag",           \* D5: the final state keeps the caller's `it`
                   "StaleCfl",             \* seeded: the time step of the first call is cached on the solver object
-                  "StickyDirective"}      \* seeded: the dtlocal directive of an earlier call stays on the solver object
+                  "StickyDirective",      \* seeded: the dtlocal directive of an earlier call stays on the solver object
+                  "ZeroTottimeIgnored"}   \* seeded: a stop time of exactly 0 is taken for "no stop time"
 
 VARIABLES kind, prof,   \* integrator kind and time-step profile of this solver object (fixed per behaviour)
           script,       \* calls still to make
@@ -111,7 +113,7 @@ DtNow(t) == CflNow * Dt(prof, t)
 DtlNow == call.dtl \/ ("StickyDirective" \in Deviations /\ \E k \in 1..Len(hist) : hist[k].dtl)
 ModeNow == IF DtlNow THEN "l" ELSE "g"
 
-EffTot(c) == IF c.tot # None THEN c.tot
+EffTot(c) == IF c.tot # None /\ ~("ZeroTottimeIgnored" \in Deviations /\ c.tot = 0) THEN c.tot
              ELSE IF Len(c.tsave) > 0 THEN c.tsave[Len(c.tsave)] ELSE None
 
 End(c, t, n) == (EffTot(c) # None /\ t >= EffTot(c)) \/ (c.maxit # None /\ n >= c.maxit)
